@@ -155,9 +155,12 @@ impl ParseData for Core {
     }
 
     fn validate_body(&self, errors: &mut Accumulator) {
-        if let Data::Struct(fields) = &self.data {
+        // At most one field of a struct - or of a struct variant - can be `flatten`.
+        fn check_flatten<'a>(
+            fields: impl Iterator<Item = &'a InputField>,
+            errors: &mut Accumulator,
+        ) {
             let flatten_targets: Vec<_> = fields
-                .iter()
                 .filter_map(|field| {
                     if field.flatten.is_present() {
                         Some(field.flatten)
@@ -173,6 +176,15 @@ impl ParseData for Core {
                         Error::custom("`#[darling(flatten)]` can only be applied to one field")
                             .with_span(&flatten.span()),
                     );
+                }
+            }
+        }
+
+        match &self.data {
+            Data::Struct(fields) => check_flatten(fields.iter(), errors),
+            Data::Enum(variants) => {
+                for variant in variants {
+                    check_flatten(variant.fields(), errors);
                 }
             }
         }
